@@ -62,7 +62,7 @@ PROPS.update({
 GEN = {"fileio": ("FileIO.tla", "MC_FileIO.cfg", False), "wasm": ("MC_Wasm.tla", "MC_Wasm_{tier}.cfg", True),
        "histories": ("MC_Builder.tla", "MC_Builder_{variant}_{tier}.cfg", False),
        "sessions": ("MC_RenderSession.tla", "MC_RenderSession_{tier}.cfg", True)}
-PROPS["C14"] = dict(scen=[("core", "histories:SeqEclMask", True), ("core", "histories:SeqModeVersion", True), ("core", "histories:EclMask", True), ("core", "histories:ModeVersion", True), ("core", "histories:EclVersion", True), ("core", "threads", True), ("core", "sessions", True)],
+PROPS["C14"] = dict(scen=[("core", "histories:SeqEclMask", True), ("core", "histories:SeqModeVersion", True), ("core", "histories:EclMask", True), ("core", "histories:ModeVersion", True), ("core", "histories:EclVersion", True), ("core", "threads", True), ("core", "sessions", True), ("core", "soak", True)],
                     mc={"quick": [], "thorough": []},
                     invariants="Deterministic, SnapshotIsRegisters, BuildReadOnly (MC_Builder, every interleaving of 2 builders x 2 threads; GEN -> replay); HNew/HSet/HBuild judged on the registers the model holds, equal registers => equal results, renders read-only and repeatable (TV)")
 
